@@ -169,6 +169,11 @@ type World struct {
 	// HoldRound is the round whose COMMITs the "late-commit"/"hijack" profiles withhold
 	HoldRound uint64
 	hijacked  map[[2]uint64]bool
+	pushed    map[[3]uint64]bool
+	// curLag is the node that currently hears nothing under the "rotlag" profile (-1: none)
+	curLag int
+	// rebroadcasting is set while a RequestRebroadcast is being served
+	rebroadcasting bool
 }
 
 type Stats struct {
@@ -305,6 +310,11 @@ func (h *host) RequestRebroadcast(in gpbft.Instant) error {
 		return nil
 	}
 	n.W.Stats.Rebroadcasts++
+	// a rebroadcast whose earlier copy is still in flight to a destination adds nothing for
+	// that destination (the pool would otherwise fill up with identical copies and the
+	// scheduler would spend its steps re-delivering them)
+	n.W.rebroadcasting = true
+	defer func() { n.W.rebroadcasting = false }()
 	if n.Byz {
 		n.W.enqueueFromPersona(n, msg)
 		return nil
@@ -428,6 +438,13 @@ func (w *World) enqueueFromPersona(pn *Node, msg *gpbft.GMessage) {
 }
 
 func (w *World) enqueue(msg *gpbft.GMessage, to int, fromByz bool) {
+	if w.rebroadcasting {
+		for _, p := range w.Pool {
+			if p.Msg == msg && p.To == to {
+				return
+			}
+		}
+	}
 	w.seq++
 	w.Pool = append(w.Pool, &Pending{Msg: msg, To: to, FromByz: fromByz, SentAt: w.Now, Seq: w.seq})
 }
